@@ -22,7 +22,7 @@ static void ref_num(u8 kind, u8 flags, u8 width, u8 prec, u64 v)
 	if (width) p += sprintf(p, "%u", width);
 	if (prec != 0xff) p += sprintf(p, ".%u", prec);
 	*p++ = 'l';
-	*p++ = (kind == 'd') ? 'd' : (kind == 'u') ? 'u' : 'x';
+	*p++ = (kind == 'd') ? 'd' : 'u';
 	*p = 0;
 	if (kind == 'd') printf(fmt, (long) v); else printf(fmt, (unsigned long) v);
 }
